@@ -85,6 +85,10 @@ ERRORS = {"io": USBErrorIO, "nodevice": USBErrorNoDevice, "timeout": USBErrorTim
 BACKEND = None
 
 
+class ClosedHandleUse(Exception):
+    """a libusb call on a handle that was already closed: undefined behaviour in libusb (a crash), NOT a USBError"""
+
+
 class Backend(object):
     def __init__(self, devices=()):
         self.devices = list(devices)
@@ -220,13 +224,15 @@ class USBDeviceHandle(object):
         BACKEND.log("claimInterface", interface)
         self._call_fault("claimInterface")
         if self.closed:
-            raise USBErrorNoDevice()
+            raise ClosedHandleUse("claimInterface on a closed handle")
         if self.device.kernel_driver and interface not in self.kernel_detached:
             raise USBErrorBusy()          # a kernel driver is bound to the interface (it binds again whenever the device re-enumerates: every new handle sees it)
         self.claimed.add(interface)
 
     def releaseInterface(self, interface):
         BACKEND.log("releaseInterface", interface)
+        if self.closed:
+            raise ClosedHandleUse("releaseInterface on a closed handle")
         self._call_fault("releaseInterface")
         if interface not in self.claimed:
             raise USBErrorNotFound()
@@ -234,6 +240,8 @@ class USBDeviceHandle(object):
 
     def close(self):
         BACKEND.log("close")
+        if self.closed:
+            raise ClosedHandleUse("close() of a handle that is already closed")
         self.closed = True
         self._call_fault("close")
 
@@ -253,7 +261,7 @@ class USBDeviceHandle(object):
     def bulkWrite(self, endpoint, data, timeout=0):
         BACKEND.log("bulkWrite", endpoint, len(data), timeout, bool(self.claimed), self.closed)
         if self.closed:
-            raise USBErrorNoDevice()
+            raise ClosedHandleUse("bulk transfer on a closed handle")
         self._transfer_fault()
         if not isinstance(timeout, int):
             raise TypeError("timeout must be an int (milliseconds)")
@@ -262,7 +270,7 @@ class USBDeviceHandle(object):
     def bulkRead(self, endpoint, length, timeout=0):
         BACKEND.log("bulkRead", endpoint, length, timeout, bool(self.claimed), self.closed)
         if self.closed:
-            raise USBErrorNoDevice()
+            raise ClosedHandleUse("bulk transfer on a closed handle")
         self._transfer_fault(read_len=length)
         if not isinstance(timeout, int):
             raise TypeError("timeout must be an int (milliseconds)")
